@@ -106,7 +106,20 @@ def search(case):
         else:
             rules = list(ruledb.get_specification_rules())
         out["rules"] = rules
-        out["spec"] = CombinatorialSpecification(css.start_class, rules)
+        if case["kind"] == "word":
+            # table universes have no combinatorial meaning: only their rule sets are examined
+            out["spec"] = CombinatorialSpecification(css.start_class, rules)
     except SpecificationNotFound:
         pass
+    except Exception as e:  # pylint: disable=broad-except
+        # Table universes have no combinatorial meaning and may break assumptions the
+        # extraction of concrete rules relies on (e.g. the known limitation with rules whose
+        # parent is foreign to the class the factory was applied to: known_findings C11/C14).
+        # Nothing is handed back then; the error is reported in the evidence.  Word universes
+        # must not fail.
+        if case["kind"] != "table":
+            raise
+        out["error"] = "%s: %s" % (type(e).__name__, str(e)[:80])
+        out["rules"] = None
+        out["extractor"] = None
     return out
